@@ -9,6 +9,9 @@ are compared exactly.  Independently
      sink = objective = capacity of a minimum cut found by enumerating ALL source-side subsets;
  (b) the Coq boolean MaxFlowSpec.spec_check (feasible + value + a residual-closed cut exists; proved sound for
      is_max_flow via weak duality in MaxFlowDuality.v) is evaluated on the IMPLEMENTATION's output in coqc.
+Rare execution histories (an arc exhausted, restored through its reverse and reused; partial cancellation on an
+anti-parallel pair; ...) are sought by an event-directed search, see harness/props/maxflow_events.py; the inputs it
+found once are kept minimised in corpus/C08/e<k>_*.json and a fresh search runs from ctx.rng on every run.
 """
 import itertools
 import json
@@ -290,7 +293,7 @@ def oracle(case, out):
     return None
 
 
-def shrink(case, still_bad, budget=120):
+def shrink(case, still_bad, budget=400):
     """drop arcs / empty adjacency lists while the case still fails (at most `budget` re-runs)"""
     cur = json.loads(json.dumps(case))
     calls = [0]
